@@ -1618,19 +1618,20 @@ impl<'a, R: FileManager> FrontendCtx<'a, R> {
                     }
 
                     let mut key = type_args[0].clone();
-                    let mut is_ref = matches!(key.kind, RuntypeKind::Ref(_));
-
-                    while is_ref {
-                        if let RuntypeKind::Ref(r) = &type_args[0].kind {
-                            let map = self
-                                .partial_validators
-                                .get(r)
-                                .and_then(|it| it.as_ref())
-                                .cloned();
-                            if let Some(schema) = map {
-                                key = schema;
-                                is_ref = matches!(key.kind, RuntypeKind::Ref(_));
-                            }
+                    // follow aliases of the key type; stop at an unresolved or already visited name
+                    let mut visited: BTreeSet<RuntypeUUID> = BTreeSet::new();
+                    while let RuntypeKind::Ref(r) = &key.kind {
+                        if !visited.insert(r.clone()) {
+                            break;
+                        }
+                        let map = self
+                            .partial_validators
+                            .get(r)
+                            .and_then(|it| it.as_ref())
+                            .cloned();
+                        match map {
+                            Some(schema) => key = schema,
+                            None => break,
                         }
                     }
                     let key_clone = key.clone();
